@@ -53,6 +53,7 @@ type TcAbs struct {
 	Table    bool   `json:"table"`    // draw values from the boundary tables
 	Stream   bool   `json:"stream"`   // first message of a client stream instead of a unary call
 	ZeroPath bool   `json:"zeropath"` // p1 carries the zero value of its kind (0, false, enum 0)
+	CompSib  bool   `json:"compsib"`  // (set by the driver) the competing value names the OTHER member of the oneof the path-bound field belongs to
 	CompSub  bool   `json:"compsub"`  // a query key names a SUB-field of the path-bound field (wrapper .value, Timestamp/Duration .seconds)
 	Ws       bool   `json:"ws"`       // the request is a WebSocket session: rule kind WEBSOCKET, the body is the first text frame
 	Upload   bool   `json:"upload"`   // the request is an HttpBody upload read with AsHTTPBodyReader (see runUploadCase)
@@ -719,6 +720,22 @@ func runTcCase(c TcAbs, seed int64) TcEv {
 	}
 	if c.CompB {
 		setLeaf(bodyMsg, role["p1"].path, comp, false)
+	}
+	// the path-bound field always carries the path's value - also when the request sets another member of its oneof, in the
+	// query or in the body (setting a oneof member clears the others: applied after the path it would wipe the capture)
+	if p1 := role["p1"].path; len(p1) == 1 && (p1[0] == "os" || p1[0] == "oi") && (c.CompQ || c.CompB) && r.Bool() {
+		sib, sv := "oi", val{text: "7", pv: protoreflect.ValueOfInt32(7)}
+		if p1[0] == "oi" {
+			sib, sv = "os", val{text: "sibling", pv: protoreflect.ValueOfString("sibling")}
+		}
+		ev.C.CompSib = true
+		if c.CompB && c.Body == "*" {
+			setLeaf(bodyMsg, []string{sib}, sv, false)
+		} else {
+			key := keyFor([]string{sib}, c.Spell)
+			qkeys = append(qkeys, key)
+			q.Add(key, sv.text)
+		}
 	}
 	path := "/tc/" + textOf("p1")
 	if c.NPath == 2 {
